@@ -313,7 +313,22 @@ def build_nested_and_run(case: dict, gseed: int) -> dict:
     pre, inner, post = build(case["pre"], 0), build(case["inner"], a), build(case["post"], a + b)
     cut = min(case["cut"], b)
     inner_cls = type("Inner", (e["Bare"],), {"recipe": list(inner[cut:])})
-    inner_retort = inner_cls(recipe=inner[:cut], strict_coercion=case["inner_strict"])
+    if rng.random() < 0.5:
+        inner_retort = inner_cls(recipe=inner[:cut], strict_coercion=case["inner_strict"])
+    else:
+        # the same retort obtained by derivation ("extend() prepends, replace() changes only scalar options") from a base that has
+        # already been placed in another recipe and has served there: what a derived retort serves depends on its construction only
+        cut2 = rng.randint(0, cut)
+        base = inner_cls(recipe=inner[cut2:cut], strict_coercion=not case["inner_strict"])
+        try:
+            e["Bare"](recipe=[base]).get_loader(int)
+        except Exception:  # noqa: BLE001,S110
+            pass
+        del log[:]
+        opts.clear()
+        inner_retort = base.extend(recipe=inner[:cut2]).replace(strict_coercion=case["inner_strict"])
+        desc.append(f"inner retort = base(recipe={cut2}..{cut}, strict={not case['inner_strict']}) used in another recipe, then "
+                    f".extend(recipe=first {cut2}).replace(strict_coercion={case['inner_strict']})")
     if rng.random() < 0.3:
         inner_retort = inner_retort.replace(debug_trail=e["DebugTrail"].FIRST)
     if case["w"] == "none":
